@@ -211,6 +211,9 @@ def filter_job(j):
         return out
     out['weights_recorded'] = True
     fi = rec['flux_interp'] if mask is not None else flux
+    out['maskinterp_called'] = rec['flux_interp'] is not None
+    if fi is None:
+        fi = flux   # the mask was not applied through djs_maskinterp; the mask-independence check decides
     w = [ld * rec['interp'][i].reshape(ld.shape) for i in range(5)]
     out['sumw'] = [[fl(w[i][t].sum()) for i in range(5)] for t in range(nT)]
     out['minw'] = fl(min(float(x.min()) for x in w))
